@@ -48,8 +48,8 @@ TraceWO == /\ Step("WO")
                 /\ WriteObj
                 /\ IF e.out = wire' THEN TRUE
                    ELSE PrintT(<<"line", l, "WO: reference bytes of the current content", wire'>>) /\ FALSE
-                /\ SameValue(e.see, cur)
-                /\ SameValue(e.ret, backs'[1])
+                /\ SameValue(e.see, cur) = TRUE
+                /\ SameValue(e.ret, backs'[1]) = TRUE
                 /\ e.avail = Len(wire') - (rpos' - 1)
                 /\ e.again = again'[1]
 
